@@ -307,3 +307,31 @@ func SelfCheck(b []byte, rendered map[string]Rendered) error {
 	}
 	return nil
 }
+
+// ReplaceMembers rewrites the archive with the named members (added if absent) as zero-byte files.
+func ReplaceMembers(b []byte, empty []string) []byte {
+	zr, err := zip.NewReader(bytes.NewReader(b), int64(len(b)))
+	if err != nil {
+		panic(err)
+	}
+	isEmpty := map[string]bool{}
+	for _, n := range empty {
+		isEmpty[n] = true
+	}
+	var buf bytes.Buffer
+	zw := zip.NewWriter(&buf)
+	for _, zf := range zr.File {
+		if isEmpty[zf.Name] {
+			continue
+		}
+		w, _ := zw.Create(zf.Name)
+		rc, _ := zf.Open()
+		io.Copy(w, rc)
+		rc.Close()
+	}
+	for _, n := range empty {
+		zw.Create(n)
+	}
+	zw.Close()
+	return buf.Bytes()
+}
